@@ -21,6 +21,8 @@
 (*   ReturnsHome    return / end find a call frame                            *)
 (*   DoneBalanced   at the end of the script no frame is left                 *)
 (* and once per image, statically:                                            *)
+(*   RoutinesUnique no two routine bodies have the same name; a name's entry   *)
+(*                  address is the instruction after its marker                 *)
 (*   RelocationPreservesTargets  every jump reaches the same instruction      *)
 (*                  object before and after routine bodies were moved          *)
 (* TraceVM.tla (second part): the (pc, frame shape) sequence of a real         *)
@@ -120,9 +122,15 @@ Relocated == \A k \in 0..NP - 1 :
                          post == M(k) + At(M(k)).n
                      IN  IF pt = -2 THEN FALSE ELSE IF pt = -1 THEN post = N ELSE post = M(pt)
 
+\* a call names ONE routine: no two bodies carry the same name, and a name's entry is the instruction after its marker
+Markers == {k \in 0..N - 1 : At(k).op = "ROUTINE"}
+RoutinesUnique == /\ \A j, k \in Markers : At(j).a = At(k).a => j = k
+                  /\ \A k \in Markers : At(k).a \in DOMAIN R.entries /\ R.entries[At(k).a] = k + 1
+
 \* ---- verdicts: one per image, collected in TLC registers (needs -workers 1) -----------------
 Flag(why) == IF TLCGet(rec) = "" THEN TLCSet(rec, why) ELSE TRUE
 Track == /\ (IF Fault # "" THEN Flag(Fault) ELSE TRUE)
+         /\ (IF pc = 0 /\ fs = <<>> /\ ~RoutinesUnique THEN Flag("RoutinesUnique") ELSE TRUE)
          /\ (IF pc = 0 /\ fs = <<>> /\ ~MapOk THEN Flag("LoadedCodeIsRearrangement") ELSE TRUE)
          /\ (IF pc = 0 /\ fs = <<>> /\ MapOk /\ ~Relocated THEN Flag("RelocationPreservesTargets") ELSE TRUE)
          /\ (IF pc = 0 /\ fs = <<>> /\ N <= 120 /\ ~SegExportOk THEN Flag("harness: segment export wrong") ELSE TRUE)
